@@ -226,6 +226,81 @@ def class_state(cat_entry):
     return mut, mdef
 
 
+MUTATORS = {'append', 'extend', 'insert', 'update', 'setdefault', 'add', 'pop', 'popitem', 'clear', 'remove', 'discard', 'sort', 'reverse'}
+
+
+def module_containers(path):
+    """module-level names bound to a mutable container (dict / list / set literal or constructor call) that some function of the
+    module mutates (item store, del, augmented item assignment, mutating method) - i.e. caches and registries that survive a call"""
+    src = open(path).read()
+    tree = ast.parse(src, filename=path)
+    cont = {}
+    for st in tree.body:
+        if isinstance(st, ast.Assign) and len(st.targets) == 1 and isinstance(st.targets[0], ast.Name):
+            v = st.value
+            if isinstance(v, (ast.Dict, ast.List, ast.Set, ast.DictComp, ast.ListComp, ast.SetComp)):
+                cont[st.targets[0].id] = st.lineno
+            elif isinstance(v, ast.Call):
+                fn = v.func.id if isinstance(v.func, ast.Name) else (v.func.attr if isinstance(v.func, ast.Attribute) else '')
+                if fn in ('dict', 'list', 'set', 'defaultdict', 'OrderedDict', 'deque', 'Counter', 'zeros', 'empty', 'ones'):
+                    cont[st.targets[0].id] = st.lineno
+    hits = []
+    if not cont:
+        return hits
+    for fn in ast.walk(tree):
+        if not isinstance(fn, (ast.FunctionDef, ast.Lambda)):
+            continue
+        local = set()
+        if isinstance(fn, ast.FunctionDef):
+            local = {a.arg for a in fn.args.args + fn.args.kwonlyargs}
+            for x in ast.walk(fn):
+                if isinstance(x, ast.Assign):
+                    for t in x.targets:
+                        if isinstance(t, ast.Name):
+                            local.add(t.id)
+            for x in ast.walk(fn):
+                if isinstance(x, ast.Global):
+                    local -= set(x.names)
+        for x in ast.walk(fn):
+            tgt = []
+            if isinstance(x, ast.Assign):
+                tgt = x.targets
+            elif isinstance(x, ast.AugAssign):
+                tgt = [x.target]
+            elif isinstance(x, ast.Delete):
+                tgt = x.targets
+            for t in tgt:
+                if isinstance(t, ast.Subscript) and isinstance(t.value, ast.Name) and t.value.id in cont and t.value.id not in local:
+                    hits.append('%s (line %d) item-assigned in %s line %d' % (t.value.id, cont[t.value.id], getattr(fn, 'name', '<lambda>'), x.lineno))
+            if isinstance(x, ast.Call) and isinstance(x.func, ast.Attribute) and x.func.attr in MUTATORS \
+                    and isinstance(x.func.value, ast.Name) and x.func.value.id in cont and x.func.value.id not in local:
+                hits.append('%s (line %d) .%s() in %s line %d' % (x.func.value.id, cont[x.func.value.id], x.func.attr, getattr(fn, 'name', '<lambda>'), x.lineno))
+    return sorted(set(hits))
+
+
+def instance_carry(cat_entry):
+    """self attributes that a method other than __init__ both reads and writes with a read that does not come after the first write
+    of the same method (line order): state carried from one call of the object to the next (caches keyed on part of the request)"""
+    mod = G.load_module(os.path.join(G.REPO, cat_entry['file']))
+    cnode = mod.classes[cat_entry['class']]
+    hits = []
+    for st in cnode.body:
+        if not isinstance(st, ast.FunctionDef) or st.name == '__init__':
+            continue
+        stores, loads = {}, {}
+        for x in ast.walk(st):
+            if isinstance(x, ast.Attribute) and isinstance(x.value, ast.Name) and x.value.id == 'self':
+                d = stores if isinstance(x.ctx, ast.Store) else loads if isinstance(x.ctx, ast.Load) else None
+                if d is not None:
+                    d.setdefault(x.attr, []).append(x.lineno)
+        for a, ls in stores.items():
+            first = min(ls)
+            early = [l for l in loads.get(a, []) if l <= first]
+            if early:
+                hits.append('%s read at line %d before its first write at line %d in %s' % (a, min(early), first, st.name))
+    return sorted(set(hits))
+
+
 def build():
     mods = []
     for root, dirs, files in os.walk(SOLVERS):
@@ -241,8 +316,18 @@ def build():
     classes = []
     for d in cat:
         mut, mdef = class_state(d)
-        classes.append({'class': d['class'], 'module': d['module'], 'class_mutables': mut, 'mutable_defaults': mdef})
-    return {'modules': mods, 'classes': classes}
+        classes.append({'class': d['class'], 'module': d['module'], 'class_mutables': mut, 'mutable_defaults': mdef, 'instance_carry': instance_carry(d)})
+    containers = []
+    for root, dirs, files in os.walk(SOLVERS):
+        if 'tests' in root:
+            continue
+        for fn in sorted(files):
+            if fn.endswith('.py'):
+                h = module_containers(os.path.join(root, fn))
+                if h:
+                    containers.append({'module': os.path.relpath(os.path.join(root, fn), G.REPO)[:-3].replace(os.sep, '.'), 'hits': h})
+    containers.sort(key=lambda m: m['module'])
+    return {'modules': mods, 'classes': classes, 'containers': containers}
 
 
 def coq_access(a):
@@ -283,6 +368,14 @@ def emit(fp):
         if c['class_mutables'] or c['mutable_defaults']:
             items.append('  (%s, [%s])' % (q(c['module'] + '.' + c['class']), '; '.join(q(x) for x in c['class_mutables'] + c['mutable_defaults'])))
     L.append(';\n'.join(items))
+    L.append("].\n")
+    L.append("(* module-level mutable containers that some function mutates (caches / registries that survive a call) *)")
+    L.append("Definition module_mutated_containers : list (string * list string) := [")
+    L.append(';\n'.join('  (%s, [%s])' % (q(m['module']), '; '.join(q(x) for x in m['hits'])) for m in fp.get('containers', [])))
+    L.append("].\n")
+    L.append("(* solver classes with attributes that a non-constructor method reads before writing them in the same method (state carried between calls) *)")
+    L.append("Definition instance_carried_state : list (string * list string) := [")
+    L.append(';\n'.join('  (%s, [%s])' % (q(c['module'] + '.' + c['class']), '; '.join(q(x) for x in c['instance_carry'])) for c in fp['classes'] if c.get('instance_carry')))
     L.append("].\n")
     L.append("Definition n_solver_classes : nat := %d." % len(fp['classes']))
     return '\n'.join(L) + '\n'
